@@ -267,6 +267,19 @@ class Gates:
             return ps["header%d" % which]
         return ok, None
 
+    def refusal_ok(self):
+        """every Err outcome of parse_raw_token has a stated cause (decided path-sensitively only)"""
+        if self.body is None:
+            return False, "anchor missing"
+        ps = self.path_sensitive()
+        if not ps["refusal"][0] and not all(ps[k][0] for k in ("footer", "count", "header0", "header1", "payload")):
+            # the interpreter does not understand how this version accepts tokens (an idiom without a model): its view of the refusals
+            # is not evidence either; the accepting side is then decided by the structural gates alone
+            structural = bool(self.footer_edges) and bool(self.in34_edges) and bool(self.header_edges[0]) and bool(self.header_edges[1])
+            if structural:
+                return True, None
+        return ps["refusal"]
+
     def payload_ok(self):
         """the Ok value is URL_SAFE_NO_PAD.decode(segment 2)"""
         for d in self.v.defs.get(0, []):
@@ -331,6 +344,53 @@ def path_sensitive(facts, body):
     if n_ok == 0:
         for k in v:
             v[k] = [False, "no accepting path found by the abstract interpreter"]
+    # refusals: every Err outcome has one of the stated causes (segment count, footer mismatch, header mismatch, payload not base64url);
+    # a refusal for any other reason turns away tokens the producing side emits
+    v["refusal"] = [True, None]
+    v["engine"] = [True, None]
+    n_err = 0
+    for o in outs:
+        if o.kind == "panic":
+            continue
+        if o.kind != "return":
+            v["refusal"] = [False, "a path could not be followed to its end (%s)" % (o.value,)]
+            continue
+        r = I.resolve(o.state, o.value)
+        if isinstance(r, A.Struct) and r.variant == "Ok":
+            pv = MD.deref(I, o.state, r.fields.get("0"))
+            if isinstance(pv, A.Seq) and "URL_SAFE_NO_PAD" not in pv.attrs.get("engine", "URL_SAFE_NO_PAD"):
+                v["engine"] = [False, "segment 2 is decoded with %s, not URL_SAFE_NO_PAD" % pv.attrs.get("engine")]
+            continue
+        if not (isinstance(r, A.Struct) and r.variant == "Err"):
+            v["refusal"] = [False, "an outcome is neither Ok nor Err: %r" % (r,)]
+            continue
+        n_err += 1
+        cond = " & ".join(o.state.cond)[-240:]
+        if o.state.unmodelled:
+            v["refusal"] = [False, "refusing path not decided (unmodelled %s)" % (o.state.unmodelled,)]
+            continue
+        lo, hi = o.state.bounds.get("len(parts0)", (1, A.LEN_MAX))
+        excl = o.state.facts.get(("excl", "len(parts0)"), ())
+        if not [n for n in (3, 4) if lo <= n <= hi and n not in excl]:
+            continue
+        flo, _fhi = o.state.bounds.get("len(footer)", (0, A.LEN_MAX))
+        has_footer = any(c == "footer is Some" for c in o.state.cond)
+        if hi <= 3 and has_footer and flo >= 1:
+            continue    # a token without footer segment when a non-empty footer is expected: the producer always writes a non-empty footer
+        why = None
+        for e in o.state.events:
+            if e[0] == "notequal":
+                pair = {e[1], e[2]}
+                if pair in ({"b64(footer.str)", "parts0[3]"}, {"b64('')", "parts0[3]"}) and lo >= 4:
+                    why = "footer"
+                if pair in ({"{parts0[0]}.{parts0[1]}.", "{V}.{P}."}, {"parts0[0]", "V"}, {"parts0[1]", "P"}):
+                    why = "header"
+            elif e[0] == "decodefail" and e[1] == "parts0[2]":
+                why = "payload"
+        if why is None:
+            v["refusal"] = [False, "a token is refused (%s) without a segment-count, footer, header or payload-decoding cause when [%s]" % (MD.describe(I, o.state, r.fields.get("0")), cond)]
+    if n_err == 0 and v["refusal"][0]:
+        v["refusal"] = [False, "no refusing path found by the abstract interpreter"]
     return {k: tuple(x) for k, x in v.items()}
 
 
